@@ -35,23 +35,30 @@ CHECKS = {
             "pre-existing objects; TLC checks the statement on the whole abstract space (decoration of the offered name is "
             "irrelevant, existing destination fails, replacement only when named, directories never deleted, hostile zip members "
             "abort) and prints every case; the real cmd_receive.Receiver runs each case in a sandbox whose before/after snapshot "
-            "(including the parent directory) is judged by RecvDestObs.tla", "3/C05"),
+            "(including the parent directory) is judged by RecvDestObs.tla; the cases are also run through the whole command (real "
+            "`wormhole receive` against a real sender whose offer carries the hostile name; user answering yes or no; transit "
+            "stream cut), so that the failure paths and whatever they clean up are judged too", "3/C05, 7.2"),
     "C06": ("TransitRecords.tla: TLC checks PrefixInv / NothingAfterTamper / HungUpWhenBad / NoReadLeftBehind / ConsumerTruth under every "
             "frame-level adversary operation; a covering family (every operation x position x records already received) and "
             "simulated behaviours are executed on real, really-negotiated Connection pairs in both directions under five chunkings "
-            "with byte-level concretisation of flips; TransitObs.tla decides", "3/C06"),
+            "with byte-level concretisation of flips, queue / loop / consumer / back-pressure-consumer readers; TransitObs.tla decides", "3/C06"),
     "C07": ("Transit.tla: TLC checks AtMostOneGo / GoOnlyAfterRH / ReceiverNeedsGo / SameLink / KeyHoldersOnly / OthersClosed / "
-            "DeadlineDecides (+ NoHang liveness) for seven contender configurations (direct both ways, relay, strangers, wrong-key "
-            "peers); behaviours are replayed on a real TransitSender/TransitReceiver on the simulated TCP fabric with state "
+            "DeadlineDecides (+ NoHang liveness) for twelve contender configurations (direct both ways, relays, strangers, wrong-key "
+            "peers, a dishonest relay, a key-holding sender of another implementation that says nevermind, units coalesced in one "
+            "read); behaviours are replayed on a real TransitSender/TransitReceiver on the simulated TCP fabric with state "
             "comparison after every step; TransitSelObs.tla decides", "3/C07"),
     "C10": ("DilationL4.tla: outbound queue / ack / watermark / replay-on-reconnect model; TLC checks InOrderOnce / NothingForgotten / "
             "Goal (+ eventual delivery) with cuts at every record; behaviours are replayed in both directions on two real Managers "
             "(real Outbound, Inbound, SubChannels, endpoints, reconnect state machine) over scripted L2 connections with delivered "
-            "callbacks compared after every step; DilMidObs.tla decides", "3/C10"),
+            "callbacks compared after every step; seeded random walks over the real Managers are recorded and validated by TLC against "
+            "DilationL4.tla (code -> spec); families on real DilatedConnectionProtocol pairs and on two real dilating wormholes "
+            "(real Connector) with writes before, across and after network cuts; DilMidObs.tla decides", "3/C10, 7.2"),
     "C13": ("DilationSub.tla interprets the SubChannel transition table extracted from the tree, plus Inbound/SubchannelDemultiplex; "
             "TLC checks OpensOnce / NothingAfterLost / DataInOrder / IdsDisjoint / UnexpectedRefused / NoInternal for listen-before/"
             "after-open, expected sets, half-closeable protocols, both sides opening; behaviours replayed on real Managers built "
-            "with expected_subprotocols the way dilate() builds them; DilMidObs.tla decides", "3/C13"),
+            "with expected_subprotocols the way dilate() builds them; seeded random walks over the real objects are validated by TLC "
+            "against DilationSub.tla (code -> spec); a full-stack family (two real dilating wormholes) opens, writes and closes "
+            "subchannels while connected or offline; DilMidObs.tla decides", "3/C13, 7.2"),
     "C11": ("DilationL3.tla interprets the Manager, Connector and DilatedConnectionProtocol tables extracted from the tree (mailbox "
             "control messages FIFO per sender, candidate links with handshake/KCM phases, eventual-queue turns, cuts observed by "
             "either side first); TLC checks AtMostOneSelected / FollowerFollowsLeader / NoDeadlock (convergence under the "
@@ -77,15 +84,17 @@ CHECKS = {
             "(intervals 2, 3 (thorough: 5) ticks, pong latencies 0..I-1 or silence, loss / reconnect / stop at every tick); TLC checks "
             "ResponsiveNeverDropped / SilentDropped / DroppedWithinThree / NoTimerWithoutConn / MonitoredWhenConnected; behaviours are "
             "replayed on a real Leader Manager + TrafficTimer on the virtual clock against a real Follower Manager; timer deadline, "
-            "machine state, pings and monitor disconnects compared after every step; DilationTimerObs.tla decides on per-step "
-            "snapshots", "3/C16"),
+            "machine state, pings and monitor disconnects compared after every step; seeded random walks over the real Manager/"
+            "TrafficTimer are validated by TLC against DilationTimer.tla (code -> spec); public-API cases on two real wormholes "
+            "(also with the mailbox connection down); DilationTimerObs.tla decides on per-step snapshots", "3/C16, 7.2"),
     "C19": ("Codes.tla over a frozen copy of the PGP word lists: TLC checks that each list is a bijection from bytes and that every "
             "completion extends the typed prefix and is allocatable, and enumerates every typed prefix / short code string; the real "
             "get_completions / choose_words / validate_code are run on every enumerated case; the code-entry protocol (one of "
             "allocate/set/input, helper call orders) is model-checked on Wormhole.tla and replayed", "3/C19"),
     "C20": ("Hints.tla: TLC enumerates every hint list of the abstract JSON-kind space with the attempts the spec requires and "
             "permits; each case is concretised and fed to the real Transit (sender, receiver) and to a real dilation "
-            "Manager/Connector; no exception, dialled set within bounds, produced hints parse back to the same targets", "3/C20"),
+            "Manager/Connector; no exception, dialled set within bounds (twin hints: the same endpoint named twice), produced hints "
+            "parse back to the same targets", "3/C20"),
 }
 
 
@@ -130,7 +139,8 @@ def main():
 NOTES = {
     "C04": "payloads of 0..3 records in TLC, real payloads up to ~50 KB; receiver runs with --accept-file --no-listen; faulty "
            "acknowledgements are produced by patching the peer receiver; C06 is the interface assumption of the model",
-    "C05": "POSIX path semantics; Receiver methods driven directly with crafted offers/archives (mailbox and transit legs are C04's); "
+    "C05": "POSIX path semantics; Receiver methods driven directly with crafted offers/archives, and the whole command for a subset of "
+           "the cases (quick: undecorated names) with a sender whose offer is rewritten; "
            "the receiver's own <destination>.tmp is part of the destination's footprint (a stale one is overwritten by design)",
     "C06": "SecretBox assumed secure; <=4 records and <=2 adversary operations per direction in TLC; an altered length prefix is "
            "judged only once a complete manipulated frame has been consumed",
@@ -139,15 +149,16 @@ NOTES = {
     "C10": "both directions over scripted L2 connections (record granularity) and the Leader -> Follower direction also over pairs of real "
            "DilatedConnectionProtocol objects (selecting window: cand/inq/ReconnectA/SelectB) with TLC witness behaviours; "
            "<=8 records and <=3 cuts in TLC/simulation",
-    "C13": "runs over one reliable connection (C10 is the interface); <=2 subchannels, <=2 writes per end in TLC",
+    "C13": "model runs over one reliable connection (C10 is the interface); <=2 subchannels, <=2 writes per end in TLC; walks up to 4 "
+           "subchannels",
     "C11": "<=4 links and <=2 cuts exhaustively (6 links in simulation); handshake progress per link is lock-step phases, byte-level "
-           "fragmentation is C12's; Noise stand-in; no relay",
+           "fragmentation is C12's; Noise stand-in; the transit relay appears in a full-stack family only, not in the model",
     "C17": "as C11; the mailbox connection stays up during shutdown (the closed notification needs it, as C08)",
     "C12": "noiseprotocol is not installed: harness/stubs/noise stands in (real ChaCha20-Poly1305, 65535-byte limit); truncated tokens "
            "and absurd length prefixes leave the receiver waiting and are not required to drop",
     "C15": "2 (thorough: 3) producers, <=4 transport signals in TLC; producers and the L2 connection are recording stand-ins, "
            "Outbound/Inbound/PullToPush/Cooperator are real",
-    "C16": "integer time (ties ordered by the behaviour); scripted L2 connections; horizons of 10-22 ticks",
+    "C16": "integer time (ties ordered by the behaviour); scripted L2 connections; horizons of 10-22 ticks (walks: 30-36)",
     "C19": "the word lists in the spec are a frozen copy of the pinned commit; os.urandom is assumed uniform; TLC enumerates all "
            "prefixes of all words for 2 (thorough: 3) word codes; code-entry schedules as for the mailbox checks",
     "C20": "field values are abstracted to JSON kinds (str/int/float/bool/null/list/dict/missing) with a few concrete "
